@@ -61,6 +61,19 @@ def build_dataset(kind, pos_unit):
     dust["size"] = A_(np.arange(len(ppts), dtype=np.float64) + 300, unit="cm")
     ds["dust"] = dust
     spec = {"mesh": (pts, n), "hydro": (pts, n), "part": (ppts, len(ppts)), "tracers": (tpts, n), "dust": (ppts, len(ppts))}
+    if kind == "regrouped":
+        # a second dataset assembled from the groups of the first one, with a mesh of its own (other positions): the position-less
+        # group now belongs to the second dataset and follows ITS mesh
+        ds2 = DS()
+        ds2.meta = dict(ds.meta)
+        pts2 = pts[::-1].copy()
+        mesh2 = DG()
+        mesh2["position"] = V_(pts2[:, 0].copy(), pts2[:, 1].copy(), pts2[:, 2].copy(), unit=pos_unit)
+        mesh2["tag"] = A_(np.arange(n, dtype=np.float64) + 50000, unit="g")
+        ds2["mesh"] = mesh2
+        ds2["hydro"] = ds["hydro"]
+        ds2["part"] = ds["part"]
+        return ds2, {"mesh": (pts2, n), "hydro": (pts2, n), "part": (ppts, len(ppts))}
     if kind in ("full", "small"):
         other = DG()
         other["q"] = A_(np.arange(4, dtype=np.float64), unit="s")
@@ -220,6 +233,10 @@ def cases(thorough):
                     if not thorough and len(set(s)) == 3:
                         continue
                     yield {"fn": "box", "pos_unit": pu, "arg_unit": ru, "form": form, "origin": list(o), "size": list(s), "ds": "full"}
+    for o in origins[::2]:
+        for r in (0.5, 1.0):
+            yield {"fn": "sphere", "pos_unit": "m", "arg_unit": "cm", "form": "Array", "origin": list(o), "size": r, "ds": "regrouped"}
+            yield {"fn": "box", "pos_unit": "m", "arg_unit": "m", "form": "Quantity", "origin": list(o), "size": [r, 2.0, r], "ds": "regrouped"}
     for ndim in (3,):
         for fn in ("sphere", "box"):
             for r in (0.0, 0.5, 4.0):
